@@ -214,7 +214,10 @@ pub fn run() {
             }
             ["dump"] if nodes.len() == 4 => {
                 let d: Vec<String> = nodes.iter_mut().take(3).map(|n| n.ask("dump").replace(' ', ";")).collect();
-                format!("dump L={} F={} R={}", d[0], d[1], d[2])
+                // the served user namespaces of the node that never stops, as a token of its own (predicted by the
+                // namespace component model)
+                let ns = d[0].split(';').find_map(|p| p.strip_prefix("nsq=")).unwrap_or("-").to_string();
+                format!("dump nsL={} L={} F={} R={}", ns, d[0], d[1], d[2])
             }
             _ => "bad-op".to_string(),
         }
